@@ -54,7 +54,7 @@ def run(tier, replay_file=None):
             if len(R.violations) >= 20:
                 break
     R.cov["ops_replayed"], R.cov["steps_compared"], R.cov["runs_compared"] = n_ops, steps, runs
-    if runs < 20 or steps < 200:
+    if not R.violations and (runs < 20 or steps < 200):
         raise common.Machinery("too few runs/steps in the generated behaviours (vacuous)")
     for hist in h2:
         if any(h["op"] == "Run" for h in hist):
